@@ -178,6 +178,20 @@ Theorem C14_stop_clears_all :
 Proof. exact stop_clears_all. Qed.
 Print Assumptions C14_stop_clears_all.
 
+(* The UV_EEXIST rule holds for every descriptor number, 0 included: uv_poll_init on a number
+   with a registered watcher returns UV_EEXIST and touches neither registry nor kernel, and a
+   uv_pipe_open / uv_tcp_open / uv_udp_open there is refused; plus the finite sweep over the
+   numbers 0, 1, 2, 3, 7, 1023, 1024, 65535 of a concrete run. *)
+Theorem C14_eexist_every_number :
+  (forall s fd i, reg s fd = Some i ->
+     snd (poll_init s fd) = UV_EEXIST /\ ep (fst (poll_init s fd)) = ep s /\
+     reg (fst (poll_init s fd)) = reg s /\ wq (fst (poll_init s fd)) = wq s) /\
+  (forall fdo s k sl i, aborted s = false -> slots s sl <> -1 -> reg s (slots s sl) = Some i ->
+     api fdo s (OForeign k sl) = (s, [EForeign k (slots s sl) true])) /\
+  (forall ring fd, In fd [0; 1; 2; 3; 7; 1023; 1024; 65535] -> eexist_ok ring fd = true).
+Proof. split; [exact poll_init_refuses|split; [exact foreign_open_refused|exact eexist_sweep]]. Qed.
+Print Assumptions C14_eexist_every_number.
+
 (* Keeps firing (level-triggered): an entry of the batch that has not been
    invalidated, names a descriptor with a poll watcher and reports a requested event
    or POLLERR/POLLHUP always reaches the user's callback - in every state, hence in
